@@ -362,7 +362,8 @@ class SingleInterval(Location):
         result_ends = []
         curr_result_block_start = self.start
         curr_result_block_end = self.end
-        for block in other.blocks:
+        # the walk below relies on sorted, non-overlapping blocks
+        for block in other.merge_overlapping().blocks:
             if block.contains(self, match_strand=match_strand):
                 return EmptyLocation()
             if block.end <= curr_result_block_start:
